@@ -321,6 +321,7 @@ type buildOpts struct {
 	LoadOnly    bool
 	GC          bool
 	SecondRun   bool // call Run twice on the same Project (as the REPL does)
+	DryThenNil  int  // 1: dry run then Run(label, nil) on the same Project; 2: with a Reload in between (as Watch does)
 }
 
 // process runs one simulated dawn process: Load, then (optionally) GC and/or Run.
@@ -347,6 +348,18 @@ func (w *world) process(name string, pc procCfg, bo buildOpts, stepHook func(ste
 		l, perr := label.Parse(bo.Label)
 		if perr != nil {
 			res.RunErr, res.Ran = perr, true
+			return
+		}
+		if bo.DryThenNil > 0 {
+			proj.Run(l, &RunOptions{DryRun: true})
+			if bo.DryThenNil == 2 {
+				if err := proj.Reload(); err != nil {
+					res.RunErr, res.Ran = err, true
+					return
+				}
+			}
+			res.RunErr = proj.Run(l, nil)
+			res.Ran = true
 			return
 		}
 		res.RunErr = proj.Run(l, &RunOptions{Always: bo.Always, DryRun: bo.DryRun})
